@@ -753,6 +753,13 @@ theorem getSpace_congr {s s' : State} (a : s'.initial = s.initial) (b : s'.hands
     (lvl : Level) : s'.getSpace lvl = s.getSpace lvl := by
   cases lvl <;> simp [State.getSpace, a, b, c]
 
+theorem completeValidation_spec (s : State) (env : Env) (lvl : Level) (now : Time) :
+    (s.completeValidation env lvl now).initial = s.initial ∧ (s.completeValidation env lvl now).handshake = s.handshake ∧
+    (s.completeValidation env lvl now).app = s.app ∧ (s.completeValidation env lvl now).bytesInFlight = s.bytesInFlight ∧
+    (s.completeValidation env lvl now).ackedBuf = s.ackedBuf := by
+  unfold State.completeValidation
+  split <;> exact ⟨rfl, rfl, rfl, rfl, rfl⟩
+
 theorem receivedAck_ledger {s : State} {env : Env} {ranges : List Range} {lvl : Level} {now : Time} (d : DummyOK s)
     (hn : (s.receivedAck env ranges lvl now).2.res.isPanic = false) :
     (pending s ~ pending (s.receivedAck env ranges lvl now).1 ++
@@ -772,11 +779,8 @@ theorem receivedAck_ledger {s : State} {env : Env} {ranges : List Range} {lvl : 
         by_cases hle : top.2 > sp.largestSent
         · simp only [hle, if_true]; simp; exact d
         · simp only [hle, if_false] at hn ⊢
-          generalize hs1 : (if s.isClient ∧ (!s.peerCompleted) = true ∧ (lvl = .handshake ∨ lvl = .oneRTT)
-              then ({ s with peerCompleted := true } : State).setTimer env now else s) = s1 at hn ⊢
-          have e1 : s1.initial = s.initial := by subst hs1; split <;> rfl
-          have e2 : s1.handshake = s.handshake := by subst hs1; split <;> rfl
-          have e3 : s1.app = s.app := by subst hs1; split <;> rfl
+          obtain ⟨e1, e2, e3, _, _⟩ := completeValidation_spec s env lvl now
+          generalize s.completeValidation env lvl now = s1 at hn e1 e2 e3 ⊢
           have d' : DummyOK s1 := DummyOK_eq e1 e2 e3 d
           have hg' : s1.getSpace lvl = some sp := by rw [getSpace_congr e1 e2 e3]; exact hg
           rw [← pending_eq e1 e2 e3]
